@@ -1,12 +1,13 @@
 """C07 — DFT-domain products equal exact negacyclic (bivariate) convolution."""
 PROPS_VO = "Props/C07.vo"
+EXTRA_VO = ["Props/C07Net.vo"]
 PROFILES = ["release"]
 RULE = ("harness c07: dft/idft round trip with (step, offset), dft add/sub/copy/add_scaled/zero, svp, vmp (limb_offset, mismatched shapes) "
         "on four backends, N=8..64 (to 1024 in thorough); value classes random / extreme aligned / alternating / sparse inside the backend's "
         "magnitude domain; output observed after idft and compared bit for bit with the exact integer product of the model; "
         "each case run twice from independent garbage fills (flags)")
 ASSUMPTIONS = ["inputs generated inside the documented magnitude domain (FFT64: accumulated products below 2^50)",
-               "the f64 FFT butterflies and the NTT butterfly network are not proved: their exactness enters through the bit-exact correspondence"]
+               "the f64 FFT rounding-error bound is not proved: FFT64 exactness enters through the bit-exact correspondence (reduced to one numerical hypothesis by C07_fft_exact_if_close); the NTT120 butterfly networks ARE proved (Props/C07Net.v)"]
 def classify(record):
     # add_bbb_ref::<Primes31>: Q[k] << 33 is just below 2^64, the u64 sum of two reduced operands wraps
     # (theorem C07_add_bbb_primes31_refuted); not reachable through a backend (Primes30 is hard-wired)
